@@ -258,6 +258,11 @@ package unite
 //@   modifies gClock
 //@   ensures [*] result1 == nil ==> result0 != nil
 
+// API accessors (run by other goroutines)
+//@ func (*Discipline).Output
+//@   requires [*] dsc != nil
+//@   ensures [* C03 C11] the-channel-the-discipline-delivers-on: result == dsc.output
+
 // ---------------------------------------------------------------- C20: ownership discipline
 //@ confine Discipline
 //@ confined interruptInterval join passAt
